@@ -4,7 +4,9 @@ package main
 
 import (
 	"fmt"
+	"go/constant"
 	"go/types"
+	"strings"
 
 	"golang.org/x/tools/go/ssa"
 )
@@ -182,7 +184,10 @@ func (c *Check) prependHeaderShape(rule string) {
 		}
 		return false
 	})
-	c.require(okM, rule, "prependHeader", "marker", p.Pos(fn.Pos()), "a step-1 loop over indices 0..15 stores 0xFF into every marker octet of the header")
+	if !okM {
+		okM = markerCopyCovers(fn)
+	}
+	c.require(okM, rule, "prependHeader", "marker", p.Pos(fn.Pos()), "a step-1 loop over indices 0..15 stores 0xFF into every marker octet of the header (or the 16 octets are copied from a constant of 16 0xFF octets)")
 }
 
 func (c *Check) writeUpdateContract(rule string) {
@@ -404,4 +409,68 @@ func (c *Check) writerLifetime(rule string) {
 		}
 	}
 	_ = types.Typ
+}
+
+// markerCopyCovers: copy(header, "\xff…\xff") with a 16-octet all-ones string
+// constant, into the start of the header buffer, before every return.
+func markerCopyCovers(fn *ssa.Function) bool {
+	found := false
+	allInstrs(fn, func(in ssa.Instruction) {
+		cl, ok := in.(*ssa.Call)
+		if !ok {
+			return
+		}
+		b, isB := cl.Call.Value.(*ssa.Builtin)
+		if !isB || b.Name() != "copy" || len(cl.Call.Args) != 2 {
+			return
+		}
+		src, isC := cl.Call.Args[1].(*ssa.Const)
+		if !isC || src.Value == nil || src.Value.Kind() != constant.String {
+			return
+		}
+		sv := constant.StringVal(src.Value)
+		if len(sv) != 16 || strings.Trim(sv, "\xff") != "" {
+			return
+		}
+		dst := cl.Call.Args[0]
+		for {
+			sl, isS := dst.(*ssa.Slice)
+			if !isS {
+				break
+			}
+			if sl.Low != nil {
+				if lc, isLC := sl.Low.(*ssa.Const); !isLC || lc.Int64() != 0 {
+					return
+				}
+			}
+			if sl.High != nil {
+				if hc, isHC := sl.High.(*ssa.Const); !isHC || hc.Int64() < 16 {
+					return
+				}
+			}
+			dst = sl.X
+		}
+		base := rootAlloc(dst)
+		if curProg != nil {
+			base = rootAlloc(curProg.origin(base))
+		}
+		switch base.(type) {
+		case *ssa.Alloc, *ssa.MakeSlice:
+		default:
+			return
+		}
+		if n, okN := constLen(base); !okN || n != 19 {
+			return
+		}
+		every := true
+		ownInstrs(fn, func(r ssa.Instruction) {
+			if _, isR := r.(*ssa.Return); isR && !instrDominates(cl, r) {
+				every = false
+			}
+		})
+		if every {
+			found = true
+		}
+	})
+	return found
 }
